@@ -159,7 +159,9 @@ class Sym:
         return a._eq(b)
     def __ne__(s, o):
         r = s.__eq__(o)
-        return r if r is NotImplemented else SBool(z3.Not(r.t))
+        if r is NotImplemented: return r
+        if isinstance(r, bool): return not r
+        return SBool(z3.Not(r.t))
     def _eq(a, b): return SBool(a.t == b.t)
     def __format__(s, spec): return '<sym>'
 
